@@ -145,6 +145,8 @@ def definition(overload, classes):
             fn = specs.inject(py, yaqltypes.Engine() if t == 'Engine' else yaqltypes.Context())(fn)
         elif t == 'Lazy':
             fn = specs.parameter(py, yaqltypes.Lambda())(fn)
+        elif t == 'Rule':
+            fn = specs.parameter(py, yaqltypes.MappingRule())(fn)
         else:
             fn = specs.parameter(py, yaqltypes.PythonType(classes[t], nullable))(fn)
     if kind == 'method':
@@ -256,8 +258,10 @@ def key_of(i, recv):
     return i + (0 if recv is None else 1)
 
 
-def direct(ctx, call, values):
-    """context(name, engine, receiver)(*argument expressions, **keyword expressions)."""
+def direct(ctx, call, values, rules=False):
+    """context(name, engine, receiver)(*argument expressions, **keyword expressions);
+    with rules=True the keyword arguments are handed over the way the parser
+    does it, as positional `name => expr` mapping-rule expressions."""
     recv, args, kwargs = call
 
     def expr(key, item):
@@ -270,6 +274,9 @@ def direct(ctx, call, values):
         raise ValueError(item)
     pos = [expr(key_of(i, recv), a) for i, a in enumerate(args)]
     kw = dict((k, expr(k, a)) for k, a in kwargs)
+    if rules:
+        pos += [expressions.MappingRuleExpression(expressions.KeywordConstant(k), e) for k, e in kw.items()]
+        kw = {}
     receiver = utils.NO_VALUE if recv is None else values[recv[1]]
     return _observe(lambda: ctx('foo', yq.engine(), receiver)(*pos, **kw))
 
